@@ -423,8 +423,7 @@ def affine_inverse_spec(A, S):
     return SM(e)
 
 
-CLOSURE_EPS = ('|x| if x.abs() > epsilon { x } else { R::one() }',
-               '|x: R| -> (r: R) ensures r.v@ == (if abs_r(x.v@) > epsilon.v@ { x.v@ } else { 1real }) { if x.abs() > epsilon { x } else { R::one() } }')
+CLOSURE_EPS = ('|x|', '|x: R| -> (r: R) ensures r.v@ == (if abs_r(x.v@) > epsilon.v@ { x.v@ } else { 1real })', '')
 
 
 def add_affine_inverses(u, ms):
@@ -448,6 +447,6 @@ def add_affine_inverses(u, ms):
     spec = affine_inverse_spec(A, sv)
     ens = ['({ %s (%s) ==> %s })' % (lets, aff, e) for e in eq_all(ms, 'res', spec)]
     u.take(P, gh, 'inverted_affine_transform', C(ensures=ens, prologue='proof { crate::vec::lemma_sm_new_all(); axiom_eps(); }',
-                                                 body_subst=[CLOSURE_EPS]))
+                                                 closures=[CLOSURE_EPS]))
     u.take(P, gh, 'invert', C(ret=None, ensures=['%s != 0real ==> %s' % (X.verus(Ao.det()), e) for e in
                                                 eq_all(ms, 'final(self)', inv_spec(Ao))]))
